@@ -1,6 +1,1082 @@
 import PolyplyVerif.Model.BuildFile
 
+/-! Helper lemmas for C18.  Core Lean only. -/
+
 namespace PolyplyVerif.Proofs.BuildFile
 open PolyplyVerif.BuildFile
+
+/-! ### generic: folds in `Except` -/
+
+theorem bind_ok {ε α β} (x : Except ε α) (f : α → Except ε β) (r : β) (h : (x >>= f) = .ok r) :
+    ∃ a, x = .ok a ∧ f a = .ok r := by
+  cases x with
+  | error e => simp [bind, Except.bind] at h
+  | ok a => exact ⟨a, rfl, by simpa [bind, Except.bind] using h⟩
+
+/-- a successful monadic fold, seen through a projection that every successful step transforms purely -/
+theorem foldlM_proj {ε σ α τ} (f : σ → α → Except ε σ) (proj : σ → τ) (g : τ → α → τ)
+    (hstep : ∀ s x s', f s x = .ok s' → proj s' = g (proj s) x) :
+    ∀ (l : List α) (init r : σ), l.foldlM f init = .ok r → proj r = l.foldl g (proj init) := by
+  intro l
+  induction l with
+  | nil => intro init r h; simp [List.foldlM_nil, pure, Except.pure] at h; subst h; rfl
+  | cons x xs ih =>
+    intro init r h
+    rw [List.foldlM_cons] at h
+    obtain ⟨s, hs, hr⟩ := bind_ok _ _ _ h
+    rw [ih s r hr, hstep init x s hs]
+    rfl
+
+/-- an invariant carried through a successful monadic fold -/
+theorem foldlM_inv {ε σ α} (f : σ → α → Except ε σ) (P : σ → Prop) (l : List α)
+    (hstep : ∀ s x s', x ∈ l → P s → f s x = .ok s' → P s') :
+    ∀ (init r : σ), P init → l.foldlM f init = .ok r → P r := by
+  induction l with
+  | nil => intro init r hp h; simp [List.foldlM_nil, pure, Except.pure] at h; subst h; exact hp
+  | cons x xs ih =>
+    intro init r hp h
+    rw [List.foldlM_cons] at h
+    obtain ⟨s, hs, hr⟩ := bind_ok _ _ _ h
+    exact ih (fun s x s' hx => hstep s x s' (List.mem_cons_of_mem _ hx)) s r
+      (hstep init x s List.mem_cons_self hp hs) hr
+
+/-! ### insertion-ordered dictionaries -/
+
+section dict
+variable {κ α : Type} [DecidableEq κ]
+
+theorem lookup_appendAt (tbl : List (κ × List α)) (k k' : κ) (v : α) :
+    (lookup (appendAt tbl k v) k').getD [] = (lookup tbl k').getD [] ++ (if k = k' then [v] else []) := by
+  induction tbl with
+  | nil =>
+    by_cases h : k = k' <;> simp [appendAt, lookup, h]
+  | cons e rest ih =>
+    obtain ⟨k0, vs⟩ := e
+    by_cases h0 : k0 = k
+    · subst h0
+      by_cases h : k0 = k' <;> simp [appendAt, lookup, h]
+    · by_cases h1 : k0 = k'
+      · subst h1
+        simp [appendAt, lookup, h0]
+        intro h; exact absurd h.symm h0
+      · simp [appendAt, lookup, h0, h1]
+        simpa using ih
+
+theorem lookup_fold_appendAt (es : List (κ × α)) : ∀ (t0 : List (κ × List α)) (k : κ),
+    (lookup (es.foldl (fun t e => appendAt t e.1 e.2) t0) k).getD [] =
+      (lookup t0 k).getD [] ++ (es.filter (fun e => decide (e.1 = k))).map (·.2) := by
+  induction es with
+  | nil => intro t0 k; simp
+  | cons e rest ih =>
+    intro t0 k
+    simp only [List.foldl_cons]
+    rw [ih, lookup_appendAt]
+    by_cases h : e.1 = k <;> simp [h, List.filter_cons]
+
+theorem lookup_setAt (tbl : List (κ × α)) (k k' : κ) (v : α) :
+    lookup (setAt tbl k v) k' = if k = k' then some v else lookup tbl k' := by
+  induction tbl with
+  | nil => by_cases h : k = k' <;> simp [setAt, lookup, h]
+  | cons e rest ih =>
+    obtain ⟨k0, v0⟩ := e
+    by_cases h0 : k0 = k
+    · subst h0
+      by_cases h : k0 = k' <;> simp [setAt, lookup, h]
+    · by_cases h1 : k0 = k'
+      · subst h1
+        have : ¬ k = k0 := fun e => h0 e.symm
+        simp [setAt, lookup, h0, this]
+      · simp [setAt, lookup, h0, h1]
+        exact ih
+
+theorem lookup_fold_setAt (es : List (κ × α)) : ∀ (t0 : List (κ × α)) (k : κ),
+    lookup (es.foldl (fun t e => setAt t e.1 e.2) t0) k =
+      (((es.filter (fun e => decide (e.1 = k))).map (·.2)).getLast?).or (lookup t0 k) := by
+  induction es with
+  | nil => intro t0 k; simp
+  | cons e rest ih =>
+    intro t0 k
+    simp only [List.foldl_cons]
+    rw [ih, lookup_setAt]
+    by_cases h : e.1 = k
+    · simp only [h, List.filter_cons, decide_true, if_true, List.map_cons]
+      cases hl : ((rest.filter (fun e => decide (e.1 = k))).map (·.2)).getLast? with
+      | none =>
+        have : (rest.filter (fun e => decide (e.1 = k))).map (·.2) = [] := by
+          simpa [List.getLast?_eq_none_iff] using hl
+        simp [this]
+      | some x =>
+        have := hl
+        rw [List.getLast?_cons]
+        simp [hl]
+    · simp [h, List.filter_cons]
+
+/-- entries of a dictionary after an assignment: old ones or the new one -/
+theorem mem_setAt (tbl : List (κ × α)) (k : κ) (v : α) (e : κ × α) (h : e ∈ setAt tbl k v) :
+    e ∈ tbl ∨ e = (k, v) := by
+  induction tbl with
+  | nil => simp [setAt] at h; exact Or.inr h
+  | cons e0 rest ih =>
+    obtain ⟨k0, v0⟩ := e0
+    by_cases h0 : k0 = k
+    · simp [setAt, h0] at h
+      rcases h with h | h
+      · right; rw [h]
+      · left; exact List.mem_cons_of_mem _ h
+    · simp [setAt, h0] at h
+      rcases h with h | h
+      · left; rw [h]; exact List.mem_cons_self
+      · rcases ih h with h | h
+        · left; exact List.mem_cons_of_mem _ h
+        · right; exact h
+
+theorem lookup_mem (tbl : List (κ × α)) (k : κ) (v : α) (h : lookup tbl k = some v) : (k, v) ∈ tbl := by
+  induction tbl with
+  | nil => simp [lookup] at h
+  | cons e rest ih =>
+    obtain ⟨k0, v0⟩ := e
+    by_cases h0 : k0 = k
+    · simp [lookup, h0] at h; subst h0; subst h; exact List.mem_cons_self
+    · simp [lookup, h0] at h; exact List.mem_cons_of_mem _ (ih h)
+
+end dict
+
+/-! ### `np.arange` -/
+
+theorem mem_arange (lo hi i : Nat) : i ∈ arange lo hi ↔ lo ≤ i ∧ i < hi := by
+  unfold arange
+  rw [List.mem_range']
+  constructor
+  · rintro ⟨j, hj, rfl⟩; omega
+  · rintro ⟨h1, h2⟩; exact ⟨i - lo, by omega, by omega⟩
+
+theorem nodup_arange (lo hi : Nat) : (arange lo hi).Nodup := by
+  unfold arange; exact List.nodup_range' 1
+
+theorem filter_eq_arange (lo hi i : Nat) :
+    (arange lo hi).filter (fun j => decide (j = i)) = if lo ≤ i ∧ i < hi then [i] else [] := by
+  rw [List.filter_eq, (nodup_arange lo hi).count]
+  by_cases h : lo ≤ i ∧ i < hi
+  · simp [h, (mem_arange lo hi i).mpr h]
+  · have : i ∉ arange lo hi := fun hm => h ((mem_arange lo hi i).mp hm)
+    simp [h, this]
+
+/-! ### A. the option table of geometry lines -/
+
+/-- geometry directives of a list of lines, in order -/
+def geomDirs : List Line → List ResDir
+  | [] => []
+  | .geometry d :: rest => d :: geomDirs rest
+  | _ :: rest => geomDirs rest
+
+def rwDirs : List Line → List ResDir
+  | [] => []
+  | .rw d :: rest => d :: rwDirs rest
+  | _ :: rest => rwDirs rest
+
+/-- the appends one line causes on `build_options` -/
+def optEvents (b : Block) : Line → List (MKey × ResDir)
+  | .geometry d => (arange b.lo b.hi).map fun i => ((b.name, i), d)
+  | _ => []
+
+def rwEvents (b : Block) : Line → List (MKey × ResDir)
+  | .rw d => (arange b.lo b.hi).map fun i => ((b.name, i), d)
+  | _ => []
+
+def allOptEvents (blocks : List Block) : List (MKey × ResDir) :=
+  blocks.flatMap fun b => b.lines.flatMap (optEvents b)
+
+def allRwEvents (blocks : List Block) : List (MKey × ResDir) :=
+  blocks.flatMap fun b => b.lines.flatMap (rwEvents b)
+
+theorem foldl_map_pair {τ ι β} (f : τ → ι → β → τ) (l : List ι) (d : β) (key : ι → MKey) (t : τ)
+    (g : τ → MKey × β → τ) (hg : ∀ t i, g t (key i, d) = f t i d) :
+    l.foldl (fun t i => f t i d) t = (l.map fun i => (key i, d)).foldl g t := by
+  induction l generalizing t with
+  | nil => rfl
+  | cons x xs ih => simp [List.foldl_cons, hg, ih]
+
+theorem parseLine_buildOptions (mols : List Mol) (b : Block) (dir dir' : Director) (l : Line)
+    (h : parseLine mols b dir l = .ok dir') :
+    dir'.buildOptions = (optEvents b l).foldl (fun t e => appendAt t e.1 e.2) dir.buildOptions := by
+  cases l with
+  | geometry d =>
+    simp only [parseLine, Except.ok.injEq] at h
+    subst h
+    simp only [optEvents, List.foldl_map]
+  | rw d => simp only [parseLine, Except.ok.injEq] at h; subst h; rfl
+  | dist a c p =>
+    simp only [parseLine] at h
+    obtain ⟨t, _, ht⟩ := bind_ok _ _ _ h
+    simp only [pure, Except.pure, Except.ok.injEq] at ht
+    subst ht; rfl
+  | pers s e p => simp only [parseLine, Except.ok.injEq] at h; subst h; rfl
+
+theorem parseLine_rwOptions (mols : List Mol) (b : Block) (dir dir' : Director) (l : Line)
+    (h : parseLine mols b dir l = .ok dir') :
+    dir'.rwOptions = (rwEvents b l).foldl (fun t e => setAt t e.1 e.2) dir.rwOptions := by
+  cases l with
+  | geometry d => simp only [parseLine, Except.ok.injEq] at h; subst h; rfl
+  | rw d =>
+    simp only [parseLine, Except.ok.injEq] at h
+    subst h
+    simp only [rwEvents, List.foldl_map]
+  | dist a c p =>
+    simp only [parseLine] at h
+    obtain ⟨t, _, ht⟩ := bind_ok _ _ _ h
+    simp only [pure, Except.pure, Except.ok.injEq] at ht
+    subst ht; rfl
+  | pers s e p => simp only [parseLine, Except.ok.injEq] at h; subst h; rfl
+
+def persOf (b : Block) : Line → List (Nat × Nat × Nat × List Nat)
+  | .pers s e p => [(s, e, p, arange b.lo b.hi)]
+  | _ => []
+
+theorem parseLine_pers (mols : List Mol) (b : Block) (dir dir' : Director) (l : Line)
+    (h : parseLine mols b dir l = .ok dir') : dir'.pers = dir.pers ++ persOf b l := by
+  cases l with
+  | geometry d => simp only [parseLine, Except.ok.injEq] at h; subst h; simp [persOf]
+  | rw d => simp only [parseLine, Except.ok.injEq] at h; subst h; simp [persOf]
+  | dist a c p =>
+    simp only [parseLine] at h
+    obtain ⟨t, _, ht⟩ := bind_ok _ _ _ h
+    simp only [pure, Except.pure, Except.ok.injEq] at ht
+    subst ht; simp [persOf]
+  | pers s e p => simp only [parseLine, Except.ok.injEq] at h; subst h; rfl
+
+theorem parseBlock_buildOptions (mols : List Mol) (b : Block) (dir dir' : Director)
+    (h : parseBlock mols dir b = .ok dir') :
+    dir'.buildOptions = (b.lines.flatMap (optEvents b)).foldl (fun t e => appendAt t e.1 e.2) dir.buildOptions := by
+  rw [List.foldl_flatMap]
+  exact foldlM_proj (parseLine mols b) (·.buildOptions)
+    (fun t l => (optEvents b l).foldl (fun t e => appendAt t e.1 e.2) t)
+    (fun s x s' hs => parseLine_buildOptions mols b s s' x hs) b.lines dir dir' h
+
+theorem parseBlock_rwOptions (mols : List Mol) (b : Block) (dir dir' : Director)
+    (h : parseBlock mols dir b = .ok dir') :
+    dir'.rwOptions = (b.lines.flatMap (rwEvents b)).foldl (fun t e => setAt t e.1 e.2) dir.rwOptions := by
+  rw [List.foldl_flatMap]
+  exact foldlM_proj (parseLine mols b) (·.rwOptions)
+    (fun t l => (rwEvents b l).foldl (fun t e => setAt t e.1 e.2) t)
+    (fun s x s' hs => parseLine_rwOptions mols b s s' x hs) b.lines dir dir' h
+
+theorem parseBlocks_buildOptions (mols : List Mol) (blocks : List Block) (dir : Director)
+    (h : parseBlocks mols blocks = .ok dir) :
+    dir.buildOptions = (allOptEvents blocks).foldl (fun t e => appendAt t e.1 e.2) [] := by
+  unfold allOptEvents
+  rw [List.foldl_flatMap]
+  exact foldlM_proj (parseBlock mols) (·.buildOptions)
+    (fun t b => (b.lines.flatMap (optEvents b)).foldl (fun t e => appendAt t e.1 e.2) t)
+    (fun s x s' hs => parseBlock_buildOptions mols x s s' hs) blocks {} dir h
+
+theorem parseBlocks_rwOptions (mols : List Mol) (blocks : List Block) (dir : Director)
+    (h : parseBlocks mols blocks = .ok dir) :
+    dir.rwOptions = (allRwEvents blocks).foldl (fun t e => setAt t e.1 e.2) [] := by
+  unfold allRwEvents
+  rw [List.foldl_flatMap]
+  exact foldlM_proj (parseBlock mols) (·.rwOptions)
+    (fun t b => (b.lines.flatMap (rwEvents b)).foldl (fun t e => setAt t e.1 e.2) t)
+    (fun s x s' hs => parseBlock_rwOptions mols x s s' hs) blocks {} dir h
+
+/-- the events of one line that concern the key `(name, i)` -/
+theorem optEvents_filter (b : Block) (l : Line) (name : String) (i : Nat) :
+    ((optEvents b l).filter (fun e => decide (e.1 = (name, i)))).map (·.2) =
+      if b.name = name ∧ b.lo ≤ i ∧ i < b.hi then geomDirs [l] else [] := by
+  cases l with
+  | geometry d =>
+    simp only [optEvents, List.filter_map, List.map_map, geomDirs]
+    by_cases hn : b.name = name
+    · subst hn
+      have : (fun j : Nat => decide (((b.name, j), d).1 = (b.name, i))) = fun j => decide (j = i) := by
+        funext j; simp
+      simp only [Function.comp_def, this, filter_eq_arange]
+      by_cases h : b.lo ≤ i ∧ i < b.hi <;> simp [h]
+    · have : (fun j : Nat => decide (((b.name, j), d).1 = (name, i))) = fun _ => false := by
+        funext j; simp [hn]
+      simp [Function.comp_def, this, hn]
+  | rw d => simp [optEvents, geomDirs]
+  | dist a c p => simp [optEvents, geomDirs]
+  | pers s e p => simp [optEvents, geomDirs]
+
+theorem rwEvents_filter (b : Block) (l : Line) (name : String) (i : Nat) :
+    ((rwEvents b l).filter (fun e => decide (e.1 = (name, i)))).map (·.2) =
+      if b.name = name ∧ b.lo ≤ i ∧ i < b.hi then rwDirs [l] else [] := by
+  cases l with
+  | rw d =>
+    simp only [rwEvents, List.filter_map, List.map_map, rwDirs]
+    by_cases hn : b.name = name
+    · subst hn
+      have : (fun j : Nat => decide (((b.name, j), d).1 = (b.name, i))) = fun j => decide (j = i) := by
+        funext j; simp
+      simp only [Function.comp_def, this, filter_eq_arange]
+      by_cases h : b.lo ≤ i ∧ i < b.hi <;> simp [h]
+    · have : (fun j : Nat => decide (((b.name, j), d).1 = (name, i))) = fun _ => false := by
+        funext j; simp [hn]
+      simp [Function.comp_def, this, hn]
+  | geometry d => simp [rwEvents, rwDirs]
+  | dist a c p => simp [rwEvents, rwDirs]
+  | pers s e p => simp [rwEvents, rwDirs]
+
+theorem geomDirs_cons (l : Line) (rest : List Line) : geomDirs (l :: rest) = geomDirs [l] ++ geomDirs rest := by
+  cases l <;> simp [geomDirs]
+
+theorem rwDirs_cons (l : Line) (rest : List Line) : rwDirs (l :: rest) = rwDirs [l] ++ rwDirs rest := by
+  cases l <;> simp [rwDirs]
+
+theorem lines_filter (b : Block) (name : String) (i : Nat) (lines : List Line) :
+    ((lines.flatMap (optEvents b)).filter (fun e => decide (e.1 = (name, i)))).map (·.2) =
+      if b.name = name ∧ b.lo ≤ i ∧ i < b.hi then geomDirs lines else [] := by
+  induction lines with
+  | nil => simp [geomDirs]
+  | cons l rest ih =>
+    rw [List.flatMap_cons, List.filter_append, List.map_append, ih, optEvents_filter, geomDirs_cons l rest]
+    by_cases h : b.name = name ∧ b.lo ≤ i ∧ i < b.hi <;> simp [h]
+
+theorem lines_filter_rw (b : Block) (name : String) (i : Nat) (lines : List Line) :
+    ((lines.flatMap (rwEvents b)).filter (fun e => decide (e.1 = (name, i)))).map (·.2) =
+      if b.name = name ∧ b.lo ≤ i ∧ i < b.hi then rwDirs lines else [] := by
+  induction lines with
+  | nil => simp [rwDirs]
+  | cons l rest ih =>
+    rw [List.flatMap_cons, List.filter_append, List.map_append, ih, rwEvents_filter, rwDirs_cons l rest]
+    by_cases h : b.name = name ∧ b.lo ≤ i ∧ i < b.hi <;> simp [h]
+
+/-- the option list stored under `(name, i)`: the geometry lines of the blocks called `name` whose range
+contains `i`, in file order -/
+theorem options_of_key (blocks : List Block) (name : String) (i : Nat) :
+    ((allOptEvents blocks).filter (fun e => decide (e.1 = (name, i)))).map (·.2) =
+      blocks.flatMap fun b => if b.name = name ∧ b.lo ≤ i ∧ i < b.hi then geomDirs b.lines else [] := by
+  unfold allOptEvents
+  induction blocks with
+  | nil => rfl
+  | cons b rest ih =>
+    rw [List.flatMap_cons, List.filter_append, List.map_append, ih, lines_filter, List.flatMap_cons]
+
+theorem rw_of_key (blocks : List Block) (name : String) (i : Nat) :
+    ((allRwEvents blocks).filter (fun e => decide (e.1 = (name, i)))).map (·.2) =
+      blocks.flatMap fun b => if b.name = name ∧ b.lo ≤ i ∧ i < b.hi then rwDirs b.lines else [] := by
+  unfold allRwEvents
+  induction blocks with
+  | nil => rfl
+  | cons b rest ih =>
+    rw [List.flatMap_cons, List.filter_append, List.map_append, ih, lines_filter_rw, List.flatMap_cons]
+
+theorem tagged_append (a b : List ResDir) (v : ResNode) : tagged (a ++ b) v = tagged a v ++ tagged b v := by
+  simp [tagged]
+
+theorem tagged_flatMap {ι} (l : List ι) (g : ι → List ResDir) (v : ResNode) :
+    tagged (l.flatMap g) v = l.flatMap fun x => tagged (g x) v := by
+  induction l with
+  | nil => rfl
+  | cons x xs ih => rw [List.flatMap_cons, tagged_append, ih, List.flatMap_cons]
+
+theorem tagged_geomDirs (lines : List Line) (v : ResNode) :
+    tagged (geomDirs lines) v = lines.filterMap (geomPayload v) := by
+  induction lines with
+  | nil => rfl
+  | cons l rest ih =>
+    rw [geomDirs_cons, tagged_append, ih]
+    cases l with
+    | geometry d =>
+      by_cases h : inRange d v <;> simp [geomDirs, tagged, geomPayload, h, List.filterMap_cons]
+    | rw d => simp [geomDirs, tagged, geomPayload, List.filterMap_cons]
+    | dist a c p => simp [geomDirs, tagged, geomPayload, List.filterMap_cons]
+    | pers s e p => simp [geomDirs, tagged, geomPayload, List.filterMap_cons]
+
+theorem tagged_rwDirs (lines : List Line) (v : ResNode) :
+    tagged (rwDirs lines) v = lines.filterMap (rwPayload v) := by
+  induction lines with
+  | nil => rfl
+  | cons l rest ih =>
+    rw [rwDirs_cons, tagged_append, ih]
+    cases l with
+    | rw d =>
+      by_cases h : inRange d v <;> simp [rwDirs, tagged, rwPayload, h, List.filterMap_cons]
+    | geometry d => simp [rwDirs, tagged, rwPayload, List.filterMap_cons]
+    | dist a c p => simp [rwDirs, tagged, rwPayload, List.filterMap_cons]
+    | pers s e p => simp [rwDirs, tagged, rwPayload, List.filterMap_cons]
+
+/-- main lemma of C18_select: what the code stores on a node is what the specification selects -/
+theorem restraints_exact (mols : List Mol) (blocks : List Block) (dir : Director)
+    (h : parseBlocks mols blocks = .ok dir) (i : Nat) (v : ResNode) :
+    restraintsOf dir mols i v = specRestraints blocks mols i v := by
+  unfold restraintsOf specRestraints
+  cases hm : mols[i]? with
+  | none => simp [blockSelects, hm]
+  | some m =>
+    simp only []
+    rw [parseBlocks_buildOptions mols blocks dir h, lookup_fold_appendAt, options_of_key]
+    simp only [lookup, Option.getD_none, List.nil_append]
+    rw [tagged_flatMap]
+    congr 1
+    funext b
+    by_cases hb : b.name = m.name ∧ b.lo ≤ i ∧ i < b.hi
+    · have : blockSelects mols b i = true := by
+        simp [blockSelects, hm, hb.1, hb.2.1, hb.2.2]
+      simp [hb, this, tagged_geomDirs]
+    · have : blockSelects mols b i = false := by
+        simp only [blockSelects, hm, Option.map_some]
+        by_cases h1 : m.name = b.name
+        · have : ¬ (b.lo ≤ i ∧ i < b.hi) := fun h2 => hb ⟨h1.symm, h2⟩
+          by_cases h3 : b.lo ≤ i <;> by_cases h4 : i < b.hi <;> simp_all
+        · simp [h1]
+      simp [hb, this, tagged]
+
+/-- the rw directives written for `(name, i)`, in file order -/
+def rwFor (blocks : List Block) (name : String) (i : Nat) : List ResDir :=
+  blocks.flatMap fun b => if b.name = name ∧ b.lo ≤ i ∧ i < b.hi then rwDirs b.lines else []
+
+/-- what the code does with `[ rw_restriction ]`: of all the lines written for a molecule only the LAST one
+is kept (`rw_options[(name, idx)] = …`) -/
+theorem rw_exact (mols : List Mol) (blocks : List Block) (dir : Director)
+    (h : parseBlocks mols blocks = .ok dir) (i : Nat) (v : ResNode) (m : Mol) (hm : mols[i]? = some m) :
+    rwOf dir mols i v = tagged ((rwFor blocks m.name i).getLast?).toList v := by
+  unfold rwOf
+  simp only [hm]
+  rw [parseBlocks_rwOptions mols blocks dir h, lookup_fold_setAt, rw_of_key]
+  simp [lookup, rwFor]
+
+theorem specRw_eq (mols : List Mol) (blocks : List Block) (i : Nat) (v : ResNode) (m : Mol)
+    (hm : mols[i]? = some m) : specRw blocks mols i v = tagged (rwFor blocks m.name i) v := by
+  unfold specRw rwFor
+  rw [tagged_flatMap]
+  congr 1
+  funext b
+  by_cases hb : b.name = m.name ∧ b.lo ≤ i ∧ i < b.hi
+  · have : blockSelects mols b i = true := by
+      simp [blockSelects, hm, hb.1, hb.2.1, hb.2.2]
+    simp [hb, this, tagged_rwDirs]
+  · have : blockSelects mols b i = false := by
+      simp only [blockSelects, hm, Option.map_some]
+      by_cases h1 : m.name = b.name
+      · have : ¬ (b.lo ≤ i ∧ i < b.hi) := fun h2 => hb ⟨h1.symm, h2⟩
+        by_cases h3 : b.lo ≤ i <;> by_cases h4 : i < b.hi <;> simp_all
+      · simp [h1]
+    simp [hb, this, tagged]
+
+theorem getLast_toList_of_length_le_one {α} (l : List α) (h : l.length ≤ 1) : l.getLast?.toList = l := by
+  match l, h with
+  | [], _ => rfl
+  | [a], _ => rfl
+  | _ :: _ :: _, h => simp at h
+
+/-! ### persistence batches and distance restraints -/
+
+def persLines (b : Block) : List (Nat × Nat × Nat × List Nat) := b.lines.flatMap (persOf b)
+
+theorem foldl_append_flatMap {ι β} (g : ι → List β) (l : List ι) : ∀ t : List β,
+    l.foldl (fun t x => t ++ g x) t = t ++ l.flatMap g := by
+  induction l with
+  | nil => intro t; simp
+  | cons x xs ih => intro t; simp [List.foldl_cons, ih, List.flatMap_cons]
+
+theorem parseBlock_pers (mols : List Mol) (b : Block) (dir dir' : Director)
+    (h : parseBlock mols dir b = .ok dir') : dir'.pers = dir.pers ++ persLines b := by
+  have := foldlM_proj (parseLine mols b) (·.pers) (fun t l => t ++ persOf b l)
+    (fun s x s' hs => parseLine_pers mols b s s' x hs) b.lines dir dir' h
+  rw [this, foldl_append_flatMap]
+  rfl
+
+theorem parseBlocks_pers (mols : List Mol) (blocks : List Block) (dir : Director)
+    (h : parseBlocks mols blocks = .ok dir) : dir.pers = blocks.flatMap persLines := by
+  have := foldlM_proj (parseBlock mols) (·.pers) (fun t b => t ++ persLines b)
+    (fun s x s' hs => parseBlock_pers mols x s s' hs) blocks {} dir h
+  rw [this, foldl_append_flatMap]
+  rfl
+
+/-- every stored distance restraint was written in a block whose index range contains the molecule index
+under which it is stored (and that molecule exists) -/
+def DistOk (blocks : List Block) (mols : List Mol) (t : List (MKey × List ((Nat × Nat) × Nat))) : Prop :=
+  ∀ k inner, (k, inner) ∈ t → ∀ ab p, (ab, p) ∈ inner →
+    ∃ b ∈ blocks, Line.dist ab.1 ab.2 p ∈ b.lines ∧ b.name = k.1 ∧ b.lo ≤ k.2 ∧ k.2 < b.hi ∧ k.2 < mols.length
+
+theorem distOne_ok (blocks : List Block) (mols : List Mol) (b : Block) (hb : b ∈ blocks) (a c p : Nat)
+    (hl : Line.dist a c p ∈ b.lines) (t t' : List (MKey × List ((Nat × Nat) × Nat))) (idx : Nat)
+    (hidx : idx ∈ arange b.lo b.hi) (ht : DistOk blocks mols t)
+    (h : distOne mols b.name a c p t idx = .ok t') : DistOk blocks mols t' := by
+  unfold distOne at h
+  cases hm : mols[idx]? with
+  | none => simp [hm] at h
+  | some m =>
+    simp only [hm] at h
+    split at h
+    · simp at h
+    · simp only [Except.ok.injEq] at h
+      subst h
+      have hlen : idx < mols.length := by
+        have := List.getElem?_eq_some_iff.mp hm
+        exact this.1
+      obtain ⟨h1, h2⟩ := (mem_arange _ _ _).mp hidx
+      intro k inner hk ab q hq
+      rcases mem_setAt _ _ _ _ hk with hk | hk
+      · exact ht k inner hk ab q hq
+      · simp only [Prod.mk.injEq] at hk
+        obtain ⟨rfl, rfl⟩ := hk
+        rcases mem_setAt _ _ _ _ hq with hq | hq
+        · cases hlook : lookup t (b.name, idx) with
+          | none => simp [hlook] at hq
+          | some old =>
+            simp only [hlook, Option.getD_some] at hq
+            exact ht _ old (lookup_mem _ _ _ hlook) ab q hq
+        · simp only [Prod.mk.injEq] at hq
+          obtain ⟨rfl, rfl⟩ := hq
+          exact ⟨b, hb, hl, rfl, h1, h2, hlen⟩
+
+theorem parseLine_dist_ok (blocks : List Block) (mols : List Mol) (b : Block) (hb : b ∈ blocks) (l : Line)
+    (hl : l ∈ b.lines) (dir dir' : Director) (ht : DistOk blocks mols dir.dist)
+    (h : parseLine mols b dir l = .ok dir') : DistOk blocks mols dir'.dist := by
+  cases l with
+  | geometry d => simp only [parseLine, Except.ok.injEq] at h; subst h; exact ht
+  | rw d => simp only [parseLine, Except.ok.injEq] at h; subst h; exact ht
+  | pers s e p => simp only [parseLine, Except.ok.injEq] at h; subst h; exact ht
+  | dist a c p =>
+    simp only [parseLine] at h
+    obtain ⟨t, hfold, hr⟩ := bind_ok _ _ _ h
+    simp only [pure, Except.pure, Except.ok.injEq] at hr
+    subst hr
+    exact foldlM_inv (distOne mols b.name a c p) (DistOk blocks mols) (arange b.lo b.hi)
+      (fun s x s' hx hs hstep => distOne_ok blocks mols b hb a c p hl s s' x hx hs hstep) dir.dist t ht hfold
+
+theorem parseBlocks_dist_ok (mols : List Mol) (blocks : List Block) (dir : Director)
+    (h : parseBlocks mols blocks = .ok dir) : DistOk blocks mols dir.dist := by
+  refine foldlM_inv (parseBlock mols) (fun d => DistOk blocks mols d.dist) blocks ?_ {} dir ?_ h
+  · intro s b s' hb hs hstep
+    exact foldlM_inv (parseLine mols b) (fun d => DistOk blocks mols d.dist) b.lines
+      (fun d l d' hl hd hstep' => parseLine_dist_ok blocks mols b hb l hl d d' hd hstep') s s' hs hstep
+  · intro k inner hk; simp at hk
+
+theorem mem_distApplied (dir : Director) (i a c p : Nat) (h : (i, a, c, p) ∈ distApplied dir) :
+    ∃ name inner, ((name, i), inner) ∈ dir.dist ∧ ((a, c), p) ∈ inner := by
+  unfold distApplied at h
+  rw [List.mem_flatMap] at h
+  obtain ⟨⟨k, inner⟩, hk, hin⟩ := h
+  simp only [List.mem_map] at hin
+  obtain ⟨⟨ab, q⟩, hq, he⟩ := hin
+  simp only [Prod.mk.injEq] at he
+  obtain ⟨rfl, rfl, rfl, rfl⟩ := he
+  exact ⟨k.1, inner, hk, hq⟩
+
+/-! ### B. the specification grammar -/
+
+theorem splitFirst_append (c : Char) (a rest : List Char) (h : c ∉ a) :
+    splitFirst c (a ++ rest) = (a ++ (splitFirst c rest).1, (splitFirst c rest).2) := by
+  induction a with
+  | nil => simp
+  | cons x xs ih =>
+    have hx : x ≠ c := fun e => h (e ▸ List.mem_cons_self)
+    have hxs : c ∉ xs := fun hm => h (List.mem_cons_of_mem _ hm)
+    simp [splitFirst, hx, ih hxs]
+
+theorem splitFirst_nil (c : Char) : splitFirst c [] = ([], none) := rfl
+
+theorem splitFirst_hit (c : Char) (r : List Char) : splitFirst c (c :: r) = ([], some r) := by
+  simp [splitFirst]
+
+theorem digit_facts : ∀ d, d < 10 → digitVal (digitChar d) = some d ∧ digitChar d ≠ '#' ∧ digitChar d ≠ '-' := by
+  decide
+
+theorem readNatAux_digit (d : Nat) (hd : d < 10) (cs : List Char) (a : Nat) :
+    readNatAux (digitChar d :: cs) a = readNatAux cs (10 * a + d) := by
+  simp [readNatAux, (digit_facts d hd).1]
+
+/-- reading back the digits written for `n` multiplies what was read before by a power of ten and adds `n` -/
+theorem read_show (fuel : Nat) : ∀ n, n < fuel → ∃ m, ∀ acc a,
+    readNatAux (showNatAux fuel n acc) a = readNatAux acc (a * m + n) := by
+  induction fuel with
+  | zero => intro n h; omega
+  | succ fuel ih =>
+    intro n hn
+    by_cases h10 : n < 10
+    · refine ⟨10, ?_⟩
+      intro acc a
+      simp only [showNatAux, h10, if_true]
+      rw [readNatAux_digit n h10, Nat.mul_comm]
+    · obtain ⟨m, hm⟩ := ih (n / 10) (by omega)
+      refine ⟨10 * m, ?_⟩
+      intro acc a
+      simp only [showNatAux, h10, if_false]
+      rw [hm, readNatAux_digit (n % 10) (Nat.mod_lt _ (by omega))]
+      congr 1
+      have : a * (10 * m) = 10 * (a * m) := by rw [Nat.mul_left_comm]
+      rw [this]
+      omega
+
+theorem showNatAux_ne_nil (fuel n : Nat) (acc : List Char) (h : 0 < fuel) : showNatAux fuel n acc ≠ [] := by
+  induction fuel generalizing n acc with
+  | zero => omega
+  | succ fuel ih =>
+    unfold showNatAux
+    by_cases h10 : n < 10
+    · simp [h10]
+    · simp only [h10, if_false]
+      cases fuel with
+      | zero => simp [showNatAux]
+      | succ f => exact ih _ _ (by omega)
+
+theorem readNat_showNat (n : Nat) : readNat (showNat n) = some n := by
+  unfold readNat showNat
+  have hne := showNatAux_ne_nil (n + 1) n [] (by omega)
+  simp only [hne, if_false]
+  obtain ⟨m, hm⟩ := read_show (n + 1) n (by omega)
+  rw [hm]
+  simp [readNatAux]
+
+theorem showNatAux_chars (fuel : Nat) : ∀ n acc c, c ∈ showNatAux fuel n acc →
+    c ∈ acc ∨ ∃ d, d < 10 ∧ c = digitChar d := by
+  induction fuel with
+  | zero => intro n acc c h; left; simpa [showNatAux] using h
+  | succ fuel ih =>
+    intro n acc c h
+    unfold showNatAux at h
+    by_cases h10 : n < 10
+    · simp only [h10, if_true, List.mem_cons] at h
+      rcases h with h | h
+      · right; exact ⟨n, h10, h⟩
+      · left; exact h
+    · simp only [h10, if_false] at h
+      rcases ih _ _ _ h with h | h
+      · simp only [List.mem_cons] at h
+        rcases h with h | h
+        · right; exact ⟨n % 10, Nat.mod_lt _ (by omega), h⟩
+        · left; exact h
+      · right; exact h
+
+theorem showNat_no_sep (n : Nat) : '#' ∉ showNat n ∧ '-' ∉ showNat n := by
+  constructor <;> intro h
+  · rcases showNatAux_chars _ _ _ _ h with h | ⟨d, hd, he⟩
+    · simp at h
+    · exact (digit_facts d hd).2.1 he.symm
+  · rcases showNatAux_chars _ _ _ _ h with h | ⟨d, hd, he⟩
+    · simp at h
+    · exact (digit_facts d hd).2.2 he.symm
+
+theorem optName_good (n : String) (h : goodName n) : optName n.toList = some n := by
+  unfold optName
+  simp [h.1, String.ofList_toList]
+
+/-- the molecule part `<mol>[#<idx>]` is read back -/
+theorem split_mol_part (mn : Option String) (mi : Option Nat) (hn : ∀ n, mn = some n → goodName n) :
+    '-' ∉ nameChars mn ++ idxChars mi ∧ optName (splitFirst '#' (nameChars mn ++ idxChars mi)).1 = mn ∧
+    (splitFirst '#' (nameChars mn ++ idxChars mi)).2 = mi.map showNat := by
+  have hM : '#' ∉ nameChars mn ∧ '-' ∉ nameChars mn := by
+    cases mn with
+    | none => simp [nameChars]
+    | some n => exact ⟨(hn n rfl).2.1, (hn n rfl).2.2⟩
+  have hopt : optName (nameChars mn) = mn := by
+    cases mn with
+    | none => rfl
+    | some n => exact optName_good n (hn n rfl)
+  refine ⟨?_, ?_, ?_⟩
+  · intro h
+    rcases List.mem_append.mp h with h | h
+    · exact hM.2 h
+    · cases mi with
+      | none => simp [idxChars] at h
+      | some i =>
+        simp only [idxChars, List.mem_cons] at h
+        rcases h with h | h
+        · exact absurd h (by decide)
+        · exact (showNat_no_sep i).2 h
+  · rw [splitFirst_append _ _ _ hM.1]
+    cases mi with
+    | none => simpa [idxChars, splitFirst] using hopt
+    | some i => simpa [idxChars, splitFirst] using hopt
+  · rw [splitFirst_append _ _ _ hM.1]
+    cases mi with
+    | none => simp [idxChars, splitFirst]
+    | some i => simp [idxChars, splitFirst]
+
+theorem parse_render (sp : Spec) (h : sp.wellFormed) : parseSpecChars (renderSpecChars sp) = .ok sp := by
+  obtain ⟨mn, mi, rn, ri⟩ := sp
+  obtain ⟨h1, h2, h3⟩ := split_mol_part mn mi h.1
+  obtain ⟨g1, g2, g3⟩ := split_mol_part rn ri h.2
+  unfold parseSpecChars renderSpecChars
+  simp only []
+  by_cases hr : (rn.isSome || ri.isSome) = true
+  · simp only [hr, if_true]
+    rw [splitFirst_append _ _ _ h1, splitFirst_hit]
+    simp only [List.append_nil, h2, h3, g2, g3]
+    cases mi <;> cases ri <;> simp [readNat_showNat]
+  · have hrn : rn = none := by cases rn <;> simp_all
+    have hri : ri = none := by cases ri <;> simp_all
+    subst hrn; subst hri
+    simp only [Option.isSome_none, Bool.or_self, Bool.false_eq_true, if_false, List.append_nil]
+    rw [← List.append_nil (_ ++ _), splitFirst_append _ _ _ h1, splitFirst_nil]
+    simp only [List.append_nil, h2, h3]
+    cases mi <;> simp [readNat_showNat, optName]
+
+/-! ### E. `-split`: regrouping is a partition; repeated atom names are rejected -/
+
+section group
+variable {κ α : Type} [DecidableEq κ]
+
+theorem appendAt_flat_perm (t : List (κ × List α)) (k : κ) (v : α) :
+    ((appendAt t k v).flatMap (·.2)).Perm (t.flatMap (·.2) ++ [v]) := by
+  induction t with
+  | nil => simp [appendAt]
+  | cons e rest ih =>
+    obtain ⟨k0, vs⟩ := e
+    by_cases h : k0 = k
+    · simp only [appendAt, h, if_true, List.flatMap_cons]
+      -- (vs ++ [v]) ++ R  ~  (vs ++ R) ++ [v]
+      rw [List.append_assoc, List.append_assoc]
+      exact List.Perm.append_left vs List.perm_append_comm
+    · simp only [appendAt, h, if_false, List.flatMap_cons, List.append_assoc]
+      exact List.Perm.append_left vs ih
+
+theorem fold_appendAt_flat_perm {ι} (f : ι → κ) (g : ι → α) (es : List ι) : ∀ t0 : List (κ × List α),
+    ((es.foldl (fun t a => appendAt t (f a) (g a)) t0).flatMap (·.2)).Perm (t0.flatMap (·.2) ++ es.map g) := by
+  induction es with
+  | nil => intro t0; simp
+  | cons e rest ih =>
+    intro t0
+    simp only [List.foldl_cons, List.map_cons]
+    refine (ih _).trans ?_
+    have := appendAt_flat_perm t0 (f e) (g e)
+    refine (List.Perm.append_right _ this).trans ?_
+    simp
+
+end group
+
+theorem relabel_keys (atoms : List Atom) (mapping : List (Nat × String)) (mx : Int) :
+    (relabel atoms mapping mx).map (·.key) = atoms.map (·.key) := by
+  unfold relabel
+  rw [List.map_map]
+  apply List.map_congr_left
+  intro a _
+  simp only [Function.comp]
+  cases lookup mapping a.key <;> rfl
+
+theorem zipIdx_map_flat {β} (l : List ((Int × String) × List β)) : ∀ k : Nat,
+    ((l.zipIdx k).map fun (g, idx) => (idx, g.1.2, g.2)).flatMap (·.2.2) = l.flatMap (·.2) := by
+  induction l with
+  | nil => intro k; rfl
+  | cons x xs ih => intro k; simp [List.zipIdx_cons, List.flatMap_cons, ih]
+
+/-- no atom is lost, none duplicated: the atoms of the new residues are the atoms of the molecule -/
+theorem split_perm (atoms : List Atom) (mx : Int) (sds : List SplitDef) (r : SplitResult)
+    (h : splitResidue atoms mx sds = .ok r) : (r.residues.flatMap (·.2.2)).Perm (atoms.map (·.key)) := by
+  unfold splitResidue at h
+  obtain ⟨mapping, _, h2⟩ := bind_ok _ _ _ h
+  simp only [pure, Except.pure, Except.ok.injEq] at h2
+  subst h2
+  simp only []
+  rw [zipIdx_map_flat, ← relabel_keys atoms mapping mx]
+  unfold groupAtoms
+  simpa using fold_appendAt_flat_perm (fun a : Atom => (a.resid, a.resname)) (·.key) (relabel atoms mapping mx) []
+
+/-- the flat view of the double loop of `_interpret_residue_mapping` -/
+def namedParts (sd : SplitDef) : List (String × String) := sd.parts.flatMap fun p => p.2.map fun n => (p.1, n)
+
+def mapStep (atoms : List Atom) (sd : SplitDef) (acc : List (Nat × String) × List String) (pn : String × String) :
+    Except String (List (Nat × String) × List String) :=
+  if pn.2 ∈ acc.2 then Except.error "IOError: atom mentioned more than once" else
+  Except.ok ((atoms.filter (fun a => a.resname = sd.resname ∧ a.atomname = pn.2)).foldl
+    (fun t a => setAt t a.key pn.1) acc.1, acc.2 ++ [pn.2])
+
+theorem foldlM_flatMap_except {ε σ ι β} (f : ι → List β) (g : σ → β → Except ε σ) (l : List ι) : ∀ init : σ,
+    (l.flatMap f).foldlM g init = l.foldlM (fun acc x => (f x).foldlM g acc) init := by
+  induction l with
+  | nil => intro init; rfl
+  | cons x xs ih =>
+    intro init
+    rw [List.flatMap_cons, List.foldlM_append, List.foldlM_cons]
+    congr 1
+    funext s
+    exact ih s
+
+theorem foldlM_map_except {ε σ ι β} (f : ι → β) (g : σ → β → Except ε σ) (l : List ι) (init : σ) :
+    (l.map f).foldlM g init = l.foldlM (fun acc x => g acc (f x)) init := by
+  induction l generalizing init with
+  | nil => rfl
+  | cons x xs ih =>
+    rw [List.map_cons, List.foldlM_cons, List.foldlM_cons]
+    congr 1
+    funext s
+    exact ih s
+
+theorem bind_pure_map {ε α β} (x : Except ε α) (f : α → β) :
+    (x >>= fun r => pure (f r)) = x.map f := by
+  cases x <;> rfl
+
+theorem interpret_flat (atoms : List Atom) (sd : SplitDef) :
+    interpretMapping atoms sd = ((namedParts sd).foldlM (mapStep atoms sd) ([], [])).map (·.1) := by
+  unfold interpretMapping namedParts
+  rw [foldlM_flatMap_except]
+  have : (fun (acc : List (Nat × String) × List String) (x : String × List String) =>
+      (x.2.map fun n => (x.1, n)).foldlM (mapStep atoms sd) acc) =
+      fun acc part => part.2.foldlM (fun (acc : List (Nat × String) × List String) name =>
+        if name ∈ acc.2 then Except.error "IOError: atom mentioned more than once" else
+        let hit := atoms.filter (fun a => a.resname = sd.resname ∧ a.atomname = name)
+        Except.ok (hit.foldl (fun t a => setAt t a.key part.1) acc.1, acc.2 ++ [name])) acc := by
+    funext acc x
+    rw [foldlM_map_except]
+    rfl
+  rw [this]
+  exact bind_pure_map _ _
+
+/-- the loop accepts exactly the name lists without repetition (and not already seen) -/
+theorem mapStep_fold (atoms : List Atom) (sd : SplitDef) (pns : List (String × String)) :
+    ∀ acc : List (Nat × String) × List String,
+    (∃ r, pns.foldlM (mapStep atoms sd) acc = .ok r) ↔
+      (pns.map (·.2)).Nodup ∧ ∀ n ∈ pns.map (·.2), n ∉ acc.2 := by
+  induction pns with
+  | nil => intro acc; simp [List.foldlM_nil, pure, Except.pure]
+  | cons pn rest ih =>
+    intro acc
+    rw [List.foldlM_cons]
+    by_cases hin : pn.2 ∈ acc.2
+    · have : mapStep atoms sd acc pn = .error "IOError: atom mentioned more than once" := by
+        simp [mapStep, hin]
+      rw [this]
+      constructor
+      · rintro ⟨r, hr⟩; simp [bind, Except.bind] at hr
+      · rintro ⟨_, h2⟩; exact absurd hin (h2 pn.2 (by simp))
+    · have hstep : mapStep atoms sd acc pn = .ok ((atoms.filter (fun a => a.resname = sd.resname ∧ a.atomname = pn.2)).foldl
+          (fun t a => setAt t a.key pn.1) acc.1, acc.2 ++ [pn.2]) := by
+        simp [mapStep, hin]
+      rw [hstep]
+      simp only [bind, Except.bind]
+      rw [ih]
+      simp only [List.map_cons, List.nodup_cons]
+      constructor
+      · rintro ⟨hnd, hall⟩
+        refine ⟨⟨?_, hnd⟩, ?_⟩
+        · intro hm
+          exact hall pn.2 hm (List.mem_append.mpr (Or.inr (List.mem_singleton.mpr rfl)))
+        · intro n hn
+          rcases List.mem_cons.mp hn with rfl | hn
+          · exact hin
+          · exact fun h => hall n hn (List.mem_append.mpr (Or.inl h))
+      · rintro ⟨⟨hnot, hnd⟩, hall⟩
+        refine ⟨hnd, ?_⟩
+        intro n hn h
+        rcases List.mem_append.mp h with h | h
+        · exact hall n (List.mem_cons_of_mem _ hn) h
+        · have := List.mem_singleton.mp h
+          subst this; exact hnot hn
+
+theorem listedNames_eq (sd : SplitDef) : (namedParts sd).map (·.2) = listedNames sd := by
+  unfold namedParts listedNames
+  rw [List.map_flatMap]
+  congr 1
+  funext p
+  simp [List.map_map, Function.comp_def]
+
+/-- a split definition is accepted iff it names no atom twice -/
+theorem interpret_ok_iff (atoms : List Atom) (sd : SplitDef) :
+    (∃ m, interpretMapping atoms sd = .ok m) ↔ (listedNames sd).Nodup := by
+  rw [interpret_flat, ← listedNames_eq]
+  have := mapStep_fold atoms sd (namedParts sd) ([], [])
+  constructor
+  · rintro ⟨m, hm⟩
+    cases hr : (namedParts sd).foldlM (mapStep atoms sd) ([], []) with
+    | error e => rw [hr] at hm; simp [Except.map] at hm
+    | ok r => exact (this.mp ⟨r, hr⟩).1
+  · intro hnd
+    obtain ⟨r, hr⟩ := this.mpr ⟨hnd, by simp⟩
+    exact ⟨r.1, by rw [hr]; rfl⟩
+
+/-! ### D. ligands: attach only appends marked nodes, detach removes exactly those -/
+
+/-- `m'` is `m` with nodes appended that all carry `ligated` -/
+def Extends (m m' : Mol) : Prop :=
+  m'.name = m.name ∧ ∃ extra, m'.nodes = m.nodes ++ extra ∧ ∀ w ∈ extra, w.ligated.isSome = true
+
+theorem Extends.refl (m : Mol) : Extends m m := ⟨rfl, [], by simp, by simp⟩
+
+theorem Extends.trans {a b c : Mol} (h1 : Extends a b) (h2 : Extends b c) : Extends a c := by
+  obtain ⟨n1, e1, he1, hl1⟩ := h1
+  obtain ⟨n2, e2, he2, hl2⟩ := h2
+  refine ⟨n2.trans n1, e1 ++ e2, by rw [he2, he1, List.append_assoc], ?_⟩
+  intro w hw
+  rcases List.mem_append.mp hw with hw | hw
+  · exact hl1 w hw
+  · exact hl2 w hw
+
+theorem attachNodes_ligated (lig : Mol) (d : LigDef) (cur : Nat) (rid : Int) :
+    ∀ w ∈ attachNodes lig d cur rid, w.ligated.isSome = true := by
+  intro w hw
+  simp only [attachNodes, List.mem_map] at hw
+  obtain ⟨⟨x, j⟩, _, rfl⟩ := hw
+  rfl
+
+theorem connectOne_extends (mols : List Mol) (defs : List (Nat × LigDef)) (i : Nat) (m : Mol)
+    (r : Mol × List (Nat × Nat)) (h : connectOne mols defs i m = .ok r) : Extends m r.1 := by
+  unfold connectOne at h
+  refine foldlM_inv _ (fun acc => Extends m acc.1) _ ?_ (m, []) r (Extends.refl m) h
+  intro acc d acc' _ hacc hstep
+  cases hl : mols[d.2.ligIdx]? with
+  | none => simp [hl] at hstep
+  | some lig =>
+    simp only [hl, Except.ok.injEq] at hstep
+    subst hstep
+    exact hacc.trans ⟨rfl, _, rfl, attachNodes_ligated _ _ _ _⟩
+
+/-- the state of `run_system` relative to the molecules it started from -/
+def AttachInv (mols : List Mol) (cur : List Mol) : Prop :=
+  cur.length = mols.length ∧ ∀ (j : Nat) (m : Mol), mols[j]? = some m → ∃ m' : Mol, cur[j]? = some m' ∧ Extends m m'
+
+theorem attachAll_inv (mols : List Mol) (defs : List (Nat × LigDef)) (r : List Mol × List (Nat × Nat × Nat))
+    (h : attachAll mols defs = .ok r) : AttachInv mols r.1 := by
+  unfold attachAll at h
+  refine foldlM_inv _ (fun acc => AttachInv mols acc.1) _ ?_ (mols, []) r ?_ h
+  · intro acc i acc' _ hacc hstep
+    cases hi : acc.1[i]? with
+    | none => simp only [hi, Except.ok.injEq] at hstep; subst hstep; exact hacc
+    | some mi =>
+      simp only [hi] at hstep
+      obtain ⟨c, hc, hr⟩ := bind_ok _ _ _ hstep
+      simp only [pure, Except.pure, Except.ok.injEq] at hr
+      subst hr
+      have hext := connectOne_extends _ _ _ _ _ hc
+      refine ⟨by rw [List.length_set]; exact hacc.1, ?_⟩
+      intro j m hm
+      obtain ⟨m', hm', hx⟩ := hacc.2 j m hm
+      by_cases hj : i = j
+      · subst hj
+        have hlt : i < acc.1.length := (List.getElem?_eq_some_iff.mp hi).1
+        refine ⟨c.1, by simp [List.getElem?_set, hlt], ?_⟩
+        rw [hi] at hm'
+        cases hm'
+        exact hx.trans hext
+      · exact ⟨m', by simp [List.getElem?_set, hj, hm'], hx⟩
+  · exact ⟨rfl, fun j m hm => ⟨m, hm, Extends.refl m⟩⟩
+
+theorem filter_extends (m m' : Mol) (h : Extends m m') (hfresh : ∀ v ∈ m.nodes, v.ligated = none) :
+    ({ m' with nodes := m'.nodes.filter (·.ligated.isNone) } : Mol) = m := by
+  obtain ⟨hn, extra, he, hl⟩ := h
+  have h1 : m.nodes.filter (·.ligated.isNone) = m.nodes := by
+    rw [List.filter_eq_self]; intro v hv; simp [hfresh v hv]
+  have h2 : extra.filter (·.ligated.isNone) = [] := by
+    rw [List.filter_eq_nil_iff]; intro v hv; simp [Option.isSome_iff_ne_none.mp (hl v hv)]
+  cases m; cases m'
+  simp only [Mol.mk.injEq] at *
+  exact ⟨hn, by rw [he, List.filter_append, h1, h2, List.append_nil]⟩
+
+/-- detaching gives the original molecule list back -/
+theorem detach_structure {π} (mols mols1 : List Mol) (hinv : AttachInv mols mols1)
+    (hfresh : ∀ m ∈ mols, ∀ v ∈ m.nodes, v.ligated = none) (pos : PosTable π) :
+    (detachAll mols1 pos).1 = mols := by
+  show mols1.map (fun m => ({ m with nodes := m.nodes.filter (·.ligated.isNone) } : Mol)) = mols
+  apply List.ext_getElem?
+  intro j
+  rw [List.getElem?_map]
+  cases hm : mols[j]? with
+  | none =>
+    have : mols1[j]? = none := by
+      have := hinv.1
+      rw [List.getElem?_eq_none_iff] at hm ⊢
+      omega
+    simp [this]
+  | some m =>
+    obtain ⟨m', hm', hx⟩ := hinv.2 j m hm
+    rw [hm']
+    simp only [Option.map_some]
+    congr 1
+    exact filter_extends m m' hx (hfresh m (List.mem_of_getElem? hm))
+
+theorem lookup_filter_keys {κ α} [DecidableEq κ] (t : List (κ × α)) (p : κ → Bool) (k : κ) :
+    lookup (t.filter (fun e => p e.1)) k = if p k then lookup t k else none := by
+  induction t with
+  | nil => simp [lookup]
+  | cons e rest ih =>
+    obtain ⟨k0, v⟩ := e
+    by_cases hp : p k0
+    · by_cases hk : k0 = k
+      · subst hk; simp [List.filter_cons, hp, lookup]
+      · simp [List.filter_cons, hp, lookup, hk, ih]
+    · by_cases hk : k0 = k
+      · subst hk; simp [List.filter_cons, hp, lookup, ih]
+      · simp [List.filter_cons, hp, lookup, hk, ih]
+
+def detachStep {π} (t : PosTable π) (st : (Nat × Nat) × (Nat × Nat)) : PosTable π :=
+  match lookup t st.1 with
+  | some p => setAt t st.2 p
+  | none => t
+
+theorem lookup_detachStep_ne {π} (t : PosTable π) (st : (Nat × Nat) × (Nat × Nat)) (k : Nat × Nat)
+    (h : st.2 ≠ k) : lookup (detachStep t st) k = lookup t k := by
+  unfold detachStep
+  cases lookup t st.1 with
+  | none => rfl
+  | some p => simp [lookup_setAt, h]
+
+theorem detach_fold {π} (srcs : List (Nat × Nat)) (pos0 : PosTable π) (L : List ((Nat × Nat) × (Nat × Nat)))
+    (hsep : ∀ st ∈ L, st.2 ∉ srcs) (hsrc : ∀ st ∈ L, st.1 ∈ srcs) :
+    ∀ t : PosTable π, (∀ s ∈ srcs, lookup t s = lookup pos0 s) →
+      (∀ s ∈ srcs, lookup (L.foldl detachStep t) s = lookup pos0 s) ∧
+      (∀ k, k ∉ L.map (·.2) → lookup (L.foldl detachStep t) k = lookup t k) ∧
+      ((L.map (·.2)).Nodup → ∀ st ∈ L, (lookup pos0 st.1).isSome = true →
+        lookup (L.foldl detachStep t) st.2 = lookup pos0 st.1) := by
+  induction L with
+  | nil => intro t ht; exact ⟨ht, fun _ _ => rfl, fun _ st hst => by simp at hst⟩
+  | cons st rest ih =>
+    intro t ht
+    have hsep' : ∀ x ∈ rest, x.2 ∉ srcs := fun x hx => hsep x (List.mem_cons_of_mem _ hx)
+    have hsrc' : ∀ x ∈ rest, x.1 ∈ srcs := fun x hx => hsrc x (List.mem_cons_of_mem _ hx)
+    have ht1 : ∀ s ∈ srcs, lookup (detachStep t st) s = lookup pos0 s := by
+      intro s hs
+      rw [lookup_detachStep_ne _ _ _ (fun e => hsep st List.mem_cons_self (e ▸ hs))]
+      exact ht s hs
+    obtain ⟨a, b, c⟩ := ih hsep' hsrc' (detachStep t st) ht1
+    simp only [List.foldl_cons]
+    refine ⟨a, ?_, ?_⟩
+    · intro k hk
+      simp only [List.map_cons, List.mem_cons, not_or] at hk
+      rw [b k hk.2, lookup_detachStep_ne _ _ _ (fun e => hk.1 e.symm)]
+    · intro hnd x hx hsome
+      simp only [List.map_cons, List.nodup_cons] at hnd
+      rcases List.mem_cons.mp hx with rfl | hx
+      · rw [b _ hnd.1]
+        have hl : lookup t x.1 = lookup pos0 x.1 := ht _ (hsrc x List.mem_cons_self)
+        unfold detachStep
+        rw [hl]
+        cases hp : lookup pos0 x.1 with
+        | none => simp [hp] at hsome
+        | some p => simp [lookup_setAt]
+      · exact c hnd.2 x hx hsome
+
+/-- positions after detaching: every ligand residue holds the position generated for its attached node,
+the attached nodes are gone, everything else keeps its own position -/
+theorem detach_positions {π} (mols1 : List Mol) (pos : PosTable π)
+    (hsep : ∀ st ∈ ligatedNodes mols1, st.2 ∉ (ligatedNodes mols1).map (·.1))
+    (hnd : ((ligatedNodes mols1).map (·.2)).Nodup) :
+    (∀ st ∈ ligatedNodes mols1, (lookup pos st.1).isSome = true →
+        lookup (detachAll mols1 pos).2 st.2 = lookup pos st.1) ∧
+    (∀ k, k ∉ (ligatedNodes mols1).map (·.2) → k ∉ (ligatedNodes mols1).map (·.1) →
+        lookup (detachAll mols1 pos).2 k = lookup pos k) ∧
+    (∀ k ∈ (ligatedNodes mols1).map (·.1), lookup (detachAll mols1 pos).2 k = none) := by
+  have hfold : (detachAll mols1 pos).2 =
+      ((ligatedNodes mols1).foldl detachStep pos).filter
+        (fun e => decide (e.1 ∉ (ligatedNodes mols1).map (·.1))) := rfl
+  obtain ⟨a, b, c⟩ := detach_fold ((ligatedNodes mols1).map (·.1)) pos (ligatedNodes mols1) hsep
+    (fun st hst => List.mem_map_of_mem hst) pos (fun _ _ => rfl)
+  rw [hfold]
+  refine ⟨?_, ?_, ?_⟩
+  · intro st hst hsome
+    rw [lookup_filter_keys _ (fun k => decide (k ∉ (ligatedNodes mols1).map (·.1)))]
+    simp only [hsep st hst, not_false_eq_true, decide_true, if_true]
+    exact c hnd st hst hsome
+  · intro k hk1 hk2
+    rw [lookup_filter_keys _ (fun k => decide (k ∉ (ligatedNodes mols1).map (·.1)))]
+    simp only [hk2, not_false_eq_true, decide_true, if_true]
+    exact b k hk1
+  · intro k hk
+    rw [lookup_filter_keys _ (fun k => decide (k ∉ (ligatedNodes mols1).map (·.1)))]
+    simp [hk]
+
+/-! ### fixtures of the non-vacuity examples -/
+
+def exampleMols : List Mol :=
+  [⟨"A", [⟨0, 1, "RA", none⟩, ⟨1, 2, "RA", none⟩]⟩, ⟨"A", [⟨0, 1, "RA", none⟩, ⟨1, 2, "RA", none⟩]⟩,
+   ⟨"L", [⟨0, 1, "RL", none⟩]⟩, ⟨"L", [⟨0, 1, "RL", none⟩]⟩, ⟨"L", [⟨0, 1, "RL", none⟩]⟩]
+
+def examplePos : PosTable String := [((0, 2), "p"), ((1, 2), "q"), ((2, 0), "own")]
+
+/-- `-lig A-RA#2:L` attached -/
+def exampleAttached : Option (List Mol × List (Nat × Nat × Nat)) :=
+  (ligDefs exampleMols [(⟨some "A", none, some "RA", some 2⟩, ⟨some "L", none, none, none⟩)]).toOption.bind
+    fun defs => (attachAll exampleMols defs).toOption
 
 end PolyplyVerif.Proofs.BuildFile
